@@ -279,10 +279,10 @@ func (l *lexer) skipTo(s string) bool {
 	return false
 }
 
-// updateCursor moves the cursor forward n bytes.  updateCursor does not
-// correctly handle tabs.  This is okay as it is only used by skipTo, and skipTo
-// is never used to skip to an initial " (which is the only time that tcol is
-// necessary, as per YANG's multi-line quoted string requirement).
+// updateCursor moves the cursor forward n bytes.  It keeps tcol in step as
+// well: a comment or single-quoted string may precede an initial " on the
+// same line, and tcol then decides how much indentation is stripped from
+// the continuation lines of that double-quoted string.
 func (l *lexer) updateCursor(n int) {
 	s := l.input[l.pos : l.pos+n]
 	l.pos += n
@@ -293,8 +293,16 @@ func (l *lexer) updateCursor(n int) {
 	if c := strings.Count(s, "\n"); c > 0 {
 		l.line += c
 		l.col = 0
+		l.tcol = 0
 	}
-	l.col += utf8.RuneCountInString(s[strings.LastIndex(s, "\n")+1:])
+	for _, r := range s[strings.LastIndex(s, "\n")+1:] {
+		l.col++
+		if r == '\t' {
+			l.tcol = (l.tcol + 8) & ^7
+		} else {
+			l.tcol++
+		}
+	}
 }
 
 // Errorf writes an error on l.errout and increments the error count.
